@@ -36,6 +36,12 @@ def gen(rng, max_m, max_n):
     ops.append({"op": "match", "target": rng.choice(["trapezoid", "rectangle"]), "ref": "rectangle",
                 "alpha": rng.choice([1, 2, 3]), "strategy": rng.choice(["closest", "closest", "lower", "higher"])})
     c["ops"] = ops
+    if rng.random() < 0.15 and len(c["y"]) >= 4:
+        # one reading many orders of magnitude above the rest, early in the series (a fill value, a burst): every later
+        # interval's average is still a local quantity
+        c["y"][rng.choice([0, 1])] = str(rng.choice([6 * 10 ** 17, 3 * 10 ** 18, -2 * 10 ** 17, 2 ** 62]))
+        c["int_y"] = False
+        c["spike"] = True
     return c
 
 
@@ -115,6 +121,13 @@ def oracle(c, io):
     if after["rx"] != before["x"] or after["ry"] != before["y"]:
         return "the reference is not the untouched series the pipeline started from"
     scale = max([abs(v) for v in ry] + [abs(v) for v in ys] + [1e-300])     # relative to the data's own magnitude
+
+    def local(q):
+        """... of the interval itself (a spike elsewhere in the series must not hide an interval that lost its average)"""
+        pre = steps[-2]["state"]["y"] if len(steps) >= 2 and "state" in steps[-2] else []     # the recreated values the
+        # match started from: what it subtracts from them is as inexact as they are large
+        return max([abs(v) for v in ys[q * n:(q + 1) * n + 1]] + [abs(v) for v in pre[q * n:(q + 1) * n + 1]]
+                   + [abs(ry[q]), abs(ry[min(q + 1, m - 1)]), 1e-300])
     for q in range(m - 1):
         sx, sy = xs[q * n:(q + 1) * n + 1], ys[q * n:(q + 1) * n + 1]
         if target == "trapezoid":
@@ -122,7 +135,7 @@ def oracle(c, io):
         else:
             integ = sum(sy[j] * (sx[j + 1] - sx[j]) for j in range(n))
         mean = integ / (rx[q + 1] - rx[q])
-        if abs(mean - ry[q]) > 1e-7 * scale:
+        if abs(mean - ry[q]) > 1e-7 * local(q):
             return (f"mean of the result over original interval {q} under the {target} rule is {mean!r}, the original "
                     f"average is {ry[q]!r}")
     if target == "rectangle" and "avg" in io:
@@ -130,7 +143,7 @@ def oracle(c, io):
         if ax != rx:
             return "block averaging does not return the original abscissae exactly"
         for q in range(m - 1):
-            if abs(ay[q] - ry[q]) > 1e-7 * scale:
+            if abs(ay[q] - ry[q]) > 1e-7 * local(q):
                 return f"block average {q} is {ay[q]!r}, original average {ry[q]!r}"
     return None
 
